@@ -205,6 +205,43 @@ class RulesLongPaths(c03.Rules):
             if r==z3.sat: rec['sample']={'scenario':self.scn(g,m),'expect':'ok' if oc=='ok' else 'err'}
         return rec
 
+class RulesManyPatterns(c03.Rules):
+    """a step with a very long list of distinct rule patterns (a representable, if unusual, layout), applied twice in one process:
+    no panic, and the verdict of the reference rule semantics both times"""
+    def __init__(self,counts=(200,),**kw):
+        c03.Rules.__init__(self,**kw)
+        self.name='C14.rules_many_patterns'; self.counts=list(counts)
+        self.bounds={'rule_list':'N in %s distinct ALLOW q<i>* patterns in ascending or descending order, then ALLOW/CREATE/DELETE a* (sorts before all of them) and DISALLOW *'%self.counts,
+                     'artifacts':'products a1 and q007x (free digest bytes), optionally zz (caught by DISALLOW *)','calls':'the same rule list is applied twice in one process (statics persist); both verdicts are checked against oracles/rules.py','hash_map_iteration':'insertion order'}
+        self.witnesses=['accept','reject']; self.rate=2
+    def entry(self,eng):
+        fn=self.fn
+        def go(run,args):
+            a1,a2=args
+            eng.call_fn(run,fn,a1)
+            return eng.call_fn(run,fn,a2)
+        return go
+    def mk_args(self,run):
+        b=self.b
+        n=self.counts[run.pick(len(self.counts),'count')] if len(self.counts)>1 else self.counts[0]
+        order=run.pick(2,'descending')
+        names=['q%03d*'%i for i in range(n)]
+        if order: names.reverse()
+        last=['ALLOW','CREATE','DELETE'][run.pick(3,'last')]
+        rules=[{'kind':'ALLOW','pattern':p} for p in names]+[{'kind':last,'pattern':'a*'}]+c03.TAILS[0]
+        prods={'a1':self.desc(z3.BitVec('pa',8)),'q007x':self.desc(z3.BitVec('pq',8))}
+        if run.pick(2,'stray'): prods['zz']=self.desc(z3.BitVec('pz',8))
+        links={'it':{'materials':{},'products':prods}}
+        def mk_art(d):
+            return [(b.vpath(p),b.hashmap([(b.variant('HashAlgorithm','Sha256'),Agg('HashValue',[u8vec(bs)])) for alg,bs in dd.items()])) for p,dd in sorted(d.items())]
+        def mk():
+            lm=b.hashmap([(mk_string(nm),b.link(nm,mk_art(l['materials']),mk_art(l['products']))) for nm,l in links.items()])
+            it=b.step('it',1,[],[],[self.mk_rule(r) for r in rules])
+            return [Ref(Cell(Ref(Cell(it)))),Ref(Cell(lm))]
+        return (mk(),mk()),{'side':'products','rules':rules,'links':links}
+    def scn(self,g,m):
+        d=c03.Rules.scn(self,g,m); d['repeat']=2; return d
+
 class Importers(Obligation):
     """key importers on garbage: PublicKey::from_pem_spki and PrivateKey::from_pkcs8 with the parsing
     dependencies (pem::parse, ring key-pair constructors) stubbed by their contract "may return Err"."""
